@@ -94,6 +94,10 @@ def rule_WR5(rep, prog):
     rep.require(rid, len(by_len) == 1, subs[0].loc if subs else fn.file, fn.name, "unwritten-offset",
                 "_dispatch_operation_deliver_data must hand the handler subrange(op->data, op->buf_len, ...) as the unwritten data: starting at buf_siz drops the "
                 "bytes of a partially written buffer - they are neither written nor reported", sample={"from_buf_len": len(by_len), "from_buf_siz": len(by_siz)})
+    rep.require(rid, len(by_siz) == 1, subs[-1].loc if subs else fn.file, fn.name, "rotate-offset-not-buf_siz",
+                "_dispatch_operation_deliver_data must advance the queued write data past a fully written buffer by exactly that buffer's size (op->buf_siz): any "
+                "other amount (e.g. the running undelivered total) trims bytes that were never written - they reach neither the descriptor nor the handler",
+                sample={"from_buf_siz": len(by_siz)})
     for c in by_siz:
         cx = paths.dom_ctx(fn, c)
         full = False
@@ -198,6 +202,45 @@ def rule_SB1(rep, prog):
                         sample={"consumer": f2.name, "cases": sorted(c2), "stream_only": sorted(stream_only)})
 
 
+def rule_OD7(rep, prog):
+    rid = rep.rule("C14-OD7", "bytes are delivered in the order they were read: a freshly filled read buffer is appended AFTER the data already accumulated for the "
+                   "operation (concat(op->data, new)), never before it", floor=1)
+    fn = prog.fn("_dispatch_operation_deliver_data")
+    rep.saw(fn)
+    cats = calls_named(fn, "dispatch_data_create_concat")
+    if not cats:
+        rep.unknown(rid, "no dispatch_data_create_concat in _dispatch_operation_deliver_data")
+    for c in cats:
+        first_acc = fld_load(prog, fn, c.ops[0], "data") is not None
+        r2 = root_ptr(fn, c.ops[1])
+        i2 = fn.inst(r2) if r2[0] == "i" else None
+        second_new = i2 is not None and i2.op == "call" and i2.callee == "dispatch_data_create"
+        rep.require(rid, first_acc and second_new, c.loc, fn.name, "read-chunks-concatenated-out-of-order",
+                    "_dispatch_operation_deliver_data concatenates the new read buffer and the accumulated data in the wrong order: whenever data is parked below "
+                    "the low-water mark across more than one buffer, the handler sees later bytes before earlier ones", sample={"first_is_accumulated": first_acc, "second_is_new_buffer": second_new})
+
+
+def rule_OD8(rep, prog):
+    rid = rep.rule("C14-OD8", "barriers wait for every earlier operation: an operation enters its fd_entry's barrier group in _dispatch_operation_enqueue - which runs "
+                   "in submission order on the channel's barrier queue - before it is handed to the stream / disk queue, and leaves it when the operation is disposed", floor=2)
+    fn = prog.fn("_dispatch_operation_enqueue")
+    rep.saw(fn)
+    enters = [c for c in calls_named(fn, "dispatch_group_enter") if fld_load(prog, fn, c.ops[0], "barrier_group") is not None]
+    handoffs = [c for c in calls_named(fn, "dispatch_async") if fld_load(prog, fn, c.ops[0], "dq") is not None or fld_load(prog, fn, c.ops[0], "pick_queue") is not None]
+    if not handoffs:
+        rep.unknown(rid, "no hand-off to a stream / disk queue found in _dispatch_operation_enqueue")
+    for h in handoffs:
+        rep.require(rid, any(fn.dominates(e, h) for e in enters), h.loc, fn.name, "handoff-before-barrier-group-enter",
+                    "_dispatch_operation_enqueue hands the operation to the stream / disk queue without having entered the barrier group first: a "
+                    "dispatch_io_barrier submitted right after the operation finds the group empty and runs before the operation has completed",
+                    sample={"handoff": h.loc, "enters": len(enters)})
+    leaves = []
+    for f2 in prog.all_functions():
+        leaves += [c for c in calls_named(f2, "dispatch_group_leave") if fld_load(prog, f2, c.ops[0], "barrier_group") is not None]
+    rep.require(rid, len(leaves) >= 1, fn.file, "_dispatch_operation_dispose", "barrier-group-never-left",
+                "no dispatch_group_leave on the fd_entry's barrier group: barriers would never run", sample={"leaves": len(leaves)})
+
+
 def run(rep, tier="quick", srcdir=None, only=None):
     prog, units = load(UNITS, tier, srcdir)
     rep.units = units
@@ -210,6 +253,10 @@ def run(rep, tier="quick", srcdir=None, only=None):
         rule_MP6(rep, prog)
     if want("C14-SB1"):
         rule_SB1(rep, prog)
+    if want("C14-OD7"):
+        rule_OD7(rep, prog)
+    if want("C14-OD8"):
+        rule_OD8(rep, prog)
 
 
 MANIFEST = {
